@@ -24,7 +24,8 @@ Req(m, t, ver, close) ==
 
 B(kind, n, n2, declared, ops) == [kind |-> kind, n |-> n, n2 |-> n2, declared |-> declared, ops |-> ops]
 
-Bodies == {B("none", 0, 0, 0, << >>)}
+\* ("none" with declared > 0: no body, but the handler states the Content-Length itself -- the answer to a HEAD request)
+Bodies == {B("none", 0, 0, 0, << >>), B("none", 0, 0, 1234, << >>), B("none", 0, 0, 7, << >>)}
           \cup {B("bytes", n, 0, 0, << >>) : n \in Sizes}
           \cup {B("append", n, 3, 0, << >>) : n \in Sizes}
           \cup {B("stream", n, 0, n, << >>) : n \in Sizes}          \* declared length = n
@@ -44,7 +45,8 @@ ReqShapes == {<<"GET", "1.1", FALSE>>, <<"HEAD", "1.1", FALSE>>, <<"POST", "1.1"
 Combos == {<<rs, st, b, hc>> : rs \in ReqShapes, st \in Statuses, b \in Bodies, hc \in BOOLEAN}
 Valid == {x \in Combos : /\ ~(x[3].kind = "chunkedWriter" /\ Bodiless(x[1][1], x[2]))     \* documented exclusion
                          /\ (x[4] => x[1][3] = FALSE /\ x[2] = 200)
-                         /\ (x[3].kind = "file" => x[2] = 200)}          \* ctx.File decides the status itself                        \* handler-requested close: one status is enough
+                         /\ (x[3].kind = "file" => x[2] = 200)
+                         /\ ((x[3].kind = "none" /\ x[3].declared > 0) => (x[1][1] = "HEAD" /\ x[2] = 200))}          \* ctx.File decides the status itself                        \* handler-requested close: one status is enough
 AllSeq == SetToSeq(Valid)
 
 ReqOf(x, k) == Req(x[1][1], "/r" \o ToDec(k), x[1][2], x[1][3])
